@@ -1,13 +1,22 @@
 ---------------------------- MODULE Sentinel_Trace ----------------------------
 (***************************************************************************)
-(* Executions of the real library with flow, isolation, hot-parameter and  *)
-(* circuit-breaker rules loaded on ONE resource at the same time, through  *)
-(* the default global slot chain (harness/cmd/c21), judged against the     *)
-(* composition of SentinelOps: for every Entry the decision and the block  *)
-(* type must be those of the first blocking slot in chain order, computed  *)
-(* from the state that only ADMITTED requests have shaped.                 *)
+(* Executions of the real library through the default global slot chain    *)
+(* (harness/cmd/c21, public API only): one or two resources, each with its *)
+(* own flow, isolation, hot-parameter concurrency, hot-parameter QPS and   *)
+(* circuit-breaker rules, system rules on the global inbound node, inbound *)
+(* and outbound entries, reloads of every module in the middle of the      *)
+(* history, completions with and without an error (Exit(WithError) /       *)
+(* api.TraceError), late and repeated calls on completed entries.          *)
+(* Judged against the composition of SentinelOps ("total mode"): for EVERY *)
+(* Entry the decision and the block type must be those of the first        *)
+(* blocking slot in chain order under the rules in force, computed from    *)
+(* the state that the earlier operations have shaped; after every Entry /  *)
+(* Exit / late call the in-flight gauges of the global inbound node        *)
+(* (recorded as the difference to its value at the start of the trace) and *)
+(* of the resource must be the ones the composition keeps; at the end of a *)
+(* trace (every entry exited) all gauges are back where they started.      *)
 (***************************************************************************)
-EXTENDS SentinelOps, Sequences, TLC, Json
+EXTENDS SentinelOps, TLC, Json
 
 Trace == ndJsonDeserialize("trace.ndjson")
 VARIABLES l, S, R, tr, failed
@@ -20,31 +29,62 @@ Judge(ok, expected) ==
     ELSE /\ failed' = TRUE
          /\ PrintT("MISMATCH " \o ToString(tr) \o " " \o ToString(l) \o " " \o ToJson(expected))
 
+Diag(r) == [window |-> Window(S.res[r].ref, S.now), live |-> Cardinality(S.res[r].live), hcnt |-> S.res[r].hcnt,
+            tokens |-> S.res[r].hk, filled |-> S.res[r].ht, breaker |-> S.res[r].cb, now |-> S.now,
+            inboundGauge |-> S.ic, inboundWindow |-> Window(S.iref, S.now), rules |-> R.res[r], sys |-> R.sys]
+
 TNew ==
     /\ IsEvent("new")
-    /\ tr' = Ev.tr /\ R' = Ev.rules /\ S' = InitState(Ev.t0) /\ failed' = FALSE
+    /\ tr' = Ev.tr /\ R' = Ev.rules /\ S' = InitState(Ev.t0, DOMAIN Ev.rules.res) /\ failed' = FALSE
 
 TEnter ==
     /\ IsEvent("enter")
-    /\ LET d == Decide(S, R, Ev.b, Ev.arg) IN
-       /\ Judge(Ev.ok = d.ok /\ Ev.bt = d.bt,
-                [expected |-> d, window |-> RefSum(S.ref, 1, S.now, 2, "pass"), live |-> Cardinality(S.live),
-                 liveForArg |-> Cardinality(LiveFor(S, Ev.arg)), breaker |-> S.cb, now |-> S.now])
+    /\ LET q  == [b |-> Ev.b, arg |-> Ev.arg, ty |-> Ev.ty]
+           d  == Decide(S, R, Ev.r, q)
+           S2 == AfterEntry(S, R, Ev.r, Ev.id, q)
+       IN
+       /\ Judge(Ev.ok = d.ok /\ Ev.bt = d.bt /\ Ev.gi = S2.ic /\ Ev.gr = S2.res[Ev.r].rc,
+                [expected |-> d, gi |-> S2.ic, gr |-> S2.res[Ev.r].rc, state |-> Diag(Ev.r)])
        \* the abstract state follows what the spec says (a mismatch ends the judgement of this trace anyway)
-       /\ S' = AfterEntry(S, R, Ev.id, Ev.b, Ev.arg)
+       /\ S' = S2
     /\ UNCHANGED <<R, tr>>
 
 TExit ==
     /\ IsEvent("exit")
-    /\ S' = IF \E e \in S.live : e.id = Ev.id THEN AfterExit(S, R, Ev.id, Ev.err) ELSE S
+    /\ LET S2 == IF IsLive(S, Ev.r, Ev.id) THEN AfterExit(S, R, Ev.r, Ev.id, Ev.err) ELSE S IN
+       /\ Judge(Ev.gi = S2.ic /\ Ev.gr = S2.res[Ev.r].rc, [gi |-> S2.ic, gr |-> S2.res[Ev.r].rc])
+       /\ S' = S2
+    /\ UNCHANGED <<R, tr>>
+
+TTrace ==
+    /\ IsEvent("trace")
+    /\ S' = AfterTrace(S, Ev.r, Ev.id)
     /\ UNCHANGED <<R, tr, failed>>
+
+\* a call on an entry that has already completed: nothing may move
+TLate ==
+    /\ IsEvent("late")
+    /\ Judge(Ev.gi = S.ic /\ Ev.gr = S.res[Ev.r].rc, [gi |-> S.ic, gr |-> S.res[Ev.r].rc])
+    /\ UNCHANGED <<S, R, tr>>
 
 TTick ==
     /\ IsEvent("tick")
     /\ S' = AfterTick(S, Ev.d)
     /\ UNCHANGED <<R, tr, failed>>
 
-TInit == l = 1 /\ S = InitState(1) /\ R = [flow |-> -1, iso |-> -1, hot |-> -1, cbE |-> -1, cbTO |-> 1] /\ tr = 0 /\ failed = FALSE
-TNext == TNew \/ TEnter \/ TExit \/ TTick
+TReload ==
+    /\ IsEvent("reload")
+    /\ S' = AfterReload(S, R, Ev.r, Ev.mod, Ev.val)
+    /\ R' = NewRules(R, Ev.r, Ev.mod, Ev.val)
+    /\ UNCHANGED <<tr, failed>>
+
+\* the driver has exited every entry that was still open: every gauge is back at its starting value
+TEnd ==
+    /\ IsEvent("end")
+    /\ Judge(Ev.gi = 0 /\ \A i \in DOMAIN Ev.gr : Ev.gr[i] = 0, [gi |-> 0, open |-> { e.id : e \in UNION { S.res[r].live : r \in DOMAIN S.res } }])
+    /\ UNCHANGED <<S, R, tr>>
+
+TInit == l = 1 /\ S = InitState(1, {1}) /\ R = [sys |-> NoSys, res |-> <<NoRule>>] /\ tr = 0 /\ failed = FALSE
+TNext == TNew \/ TEnter \/ TExit \/ TTrace \/ TLate \/ TTick \/ TReload \/ TEnd
 TSpec == TInit /\ [][TNext]_tvars
 =============================================================================
